@@ -263,6 +263,30 @@ def check_bytes(ctx):
     ctx.check(n >= 6, inst, "anchor", "-", "cache_memory writers (>= 6, found %d)" % n, None)
 
 
+def check_blocking_locks(ctx):
+    """a removal / invalidation that gives up when the bucket is busy leaves the replaced generation cached: every cache
+    operation except the opportunistic eviction sweep takes its bucket lock with a blocking acquisition"""
+    inst = "C16.invalidate/blocking"
+    allowed = ["ClockCache::evict_entries"]
+    n_try = 0
+    for b in ctx.prog.product_bodies():
+        if not b.file.endswith("core/cache.rs"):
+            continue
+        for n in b.calls():
+            if any(R.call_matches(n.ev, t) for t in ("RwLock::try_write", "RwLock::try_read", "Mutex::try_lock", "RwLock::try_upgradable_read",
+                                                     "RwLock::try_write_for", "RwLock::try_read_for", "Mutex::try_lock_for")):
+                n_try += 1
+                o = R.owner_fn(ctx.prog, b)
+                ctx.check(any(path_matches(o, a) for a in allowed), inst, "FORBID", o,
+                          "only the eviction sweep may skip work when a cache lock is busy (non-blocking acquisition)", b.where(n.id))
+    ctx.check(n_try >= 1, inst, "anchor", "-", "the eviction sweep's try_lock is seen (control for the selector; found %d)" % n_try, None)
+    b = ctx.fn("ClockCache::remove_entry", inst)
+    if b is not None:
+        w = ctx.sites(b, R.call("RwLock::write"), inst, exact=1)
+        rm = R.call("Vec::remove", "Vec::swap_remove", "Vec::retain")(b)
+        R.dom(ctx, inst, b, w, rm, "an entry is removed under the bucket's write lock", a_desc="bucket.write()")
+
+
 def check_sweep(ctx):
     """CLOCK sweep inside one bucket: an eviction shifts the next entry into the evicted slot, so the cursor may advance only
     past an entry that was kept (second chance); advancing after a removal skips an unreferenced entry and makes the sweep
@@ -306,6 +330,7 @@ def check_sweep(ctx):
 
 
 def check(ctx):
+    check_blocking_locks(ctx)
     check_sweep(ctx)
     check_keyed(ctx)
     check_match(ctx)
